@@ -115,7 +115,14 @@ impl Expr {
     }
 
     pub fn run(&self, constants: &dyn Context) -> Result<i64, ExprRunError> {
-        self.run_nested(constants, 0, &Cell::new(0))
+        let steps = Cell::new(0);
+        let result = self.run_nested(constants, 0, &steps);
+        if !constants.spend_evaluation_steps(steps.get()) {
+            return Err(ExprRunError::ArithmeticError(
+                "the expressions of this source need too many evaluation steps".to_string(),
+            ));
+        }
+        result
     }
 
     /// Evaluation is recursive, also through the symbols an expression names: a symbol that is
